@@ -17,7 +17,8 @@ PAYLOADS = [None, 17, "NaN", True, {"x": [1, "NaN", None]}, [[], {}], {"a": {"b"
             # integers beyond 64 bits (a bare number in JSON, a BigInteger in Smile), alone and nested
             "@wide:18446744073709551616", {"x": ["@wide:-9223372036854775809", 1]}, "@wide:340282366920938463463374607431768211455",
             [["@wide:-170141183460469231731687303715884105728"]]]
-NAMESETS = [["0first"], ["azz"], ["zlast"], ["0first", "zlast"], ["azz", "bzz"]]
+NAMESETS = [["0first"], ["azz"], ["zlast"], ["0first", "zlast"], ["azz", "bzz"],
+            ["azz" + "q" * 200], ["0" + "f" * 140, "z" + "l" * 300]]      # names longer than any small inline buffer
 # the Deserializer structs (json_server_str ...) and the convenience functions (json_server_fn_str = json::server_from_str ...)
 SERVER = ["json_server_str", "json_server_slice", "json_server_reader", "smile_server_slice", "smile_server_reader",
           "smile_server_mut_slice", "json_server_fn_str", "json_server_fn_slice", "json_server_fn_reader",
